@@ -145,7 +145,7 @@ def _top_effect(A, f):
     return '+'.join(effects) if effects else 'none'
 
 
-@rule('R03.b', ('C03', 'C05', 'C01'), 'calling sequence CTX/PARAM*/JSR/END_CTX and '
+@rule('R03.b', ('C03', 'C05', 'C01', 'C19'), 'calling sequence CTX/PARAM*/JSR/END_CTX and '
       'frame push/pop table of the VM handlers', floor=14,
       decides='each call has its own parameters and locals, gone afterwards; '
               'every loop or call entered is left again')
